@@ -46,7 +46,9 @@ var metaTable = map[string]propMeta{
 		NonTrivial: notPrefix("send/noalloc", "chandata/noalloc", "peer/norelay", "allocate/", "refresh/", "probe-expiry", "tcp-control")},
 	"C02": {Level: "exploration", Assumptions: commonAssumptions,
 		Rule:       histRule + "peer->relay fingerprints (sender class x authorisation state x transport) with a MUST verdict, other than 'no such relay'",
-		NonTrivial: func(fp string) bool { return strings.HasPrefix(fp, "peer/") && !strings.HasPrefix(fp, "peer/norelay") }},
+		NonTrivial: func(fp string) bool {
+			return (strings.HasPrefix(fp, "peer/") && !strings.HasPrefix(fp, "peer/norelay")) || strings.HasPrefix(fp, "inbound/")
+		}},
 	"C06": {Level: "exploration", Assumptions: commonAssumptions,
 		Rule: histRule + "allocate/refresh fingerprints by lifetime class and outcome, expiry probes, and data-plane verdicts that depend on allocation liveness",
 		NonTrivial: func(fp string) bool {
